@@ -307,3 +307,151 @@ def run(coro, timeout=RUN_TIMEOUT):
     async def guarded():
         return await asyncio.wait_for(coro, timeout)
     return asyncio.run(guarded())
+
+
+# ---------------------------------------------------------------------------------------------
+# The asynchronous client on in-memory streams
+# ---------------------------------------------------------------------------------------------
+
+class ClientRun:
+    """A real SocketAsyncRPCClient whose connection is an in-memory reader and a writer stub."""
+
+    def __init__(self):
+        from stepup.core.rpc import SocketAsyncRPCClient
+        loop = asyncio.get_running_loop()
+        self.client = SocketAsyncRPCClient("/nonexistent/c16-socket")
+        self.reader = asyncio.StreamReader()
+        self.writer = GatedWriter(gated=False)
+        self.client._reader = self.reader
+        self.client._writer = self.writer
+        connected = loop.create_future()
+        connected.set_result(None)
+        self.client._connect_task = connected
+        self.client._recv_task = asyncio.create_task(self.client._recv_loop(), name="c16-client-recv")
+        self.calls = {}        # call id -> task
+        self.order = []        # (call id, outcome) in the order the callers were resumed
+        self.late = []         # outcomes of calls made after the receive loop ended
+        self.close_result = None
+
+    async def _caller(self, name, arg):
+        return await self.client(name, arg)
+
+    def _finished(self, cid, task):
+        if task.cancelled():
+            return
+        exc = task.exception()
+        if exc is None:
+            self.order.append((cid, ("value", task.result())))
+        else:
+            self.order.append((cid, ("exc", type(exc).__name__, str(exc))))
+
+    async def apply(self, ev):
+        kind = ev[0]
+        if kind == "call":
+            before = self.client._counter
+            task = asyncio.create_task(self._caller("work", before + 1))
+            await settle()
+            if self.client._counter == before + 1:
+                cid = before + 1
+                self.calls[cid] = task
+                if task.done():
+                    self._finished(cid, task)
+                else:
+                    task.add_done_callback(lambda t, cid=cid: self._finished(cid, t))
+            else:
+                exc = task.exception() if task.done() and not task.cancelled() else None
+                self.late.append(type(exc).__name__ if exc is not None else "no-exception")
+        elif kind == "cancel":
+            t = self.calls.get(ev[1])
+            if t is not None and not t.done():
+                t.cancel()
+        elif kind == "recv":
+            if not self.reader._eof:
+                self.reader.feed_data(bytes(ev[1]))
+        elif kind == "peergone":
+            if not self.reader._eof:
+                self.reader.feed_eof()
+        elif kind == "close":
+            try:
+                await asyncio.wait_for(self.client.close(), 60)
+                self.close_result = "ok"
+            except Exception as e:  # noqa: BLE001
+                self.close_result = type(e).__name__
+        else:
+            raise AssertionError(ev)
+        return await settle()
+
+    def observe(self):
+        rt = self.client._recv_task
+        alive = not rt.done()
+        failed = rt.done() and not rt.cancelled() and rt.exception() is not None
+        return {
+            "alive": alive, "failed": failed, "counter": self.client._counter,
+            "pending": [(cid, not p.future.cancelled()) for cid, p in self.client._pending.items()],
+            "done": list(self.order), "late": list(self.late),
+            "sent": [cid for cid, _ in split_messages(self.writer.written)[0]],
+        }
+
+    async def teardown(self):
+        for t in self.calls.values():
+            if not t.done():
+                t.cancel()
+        rt = self.client._recv_task
+        if not rt.done():
+            rt.cancel()
+        await settle()
+        if rt.done() and not rt.cancelled():
+            rt.exception()
+        for t in self.calls.values():
+            if t.done() and not t.cancelled():
+                t.exception()
+
+
+async def run_client_events(events):
+    run_ = ClientRun()
+    ok = await settle()
+    obs = [run_.observe()]
+    for ev in events:
+        ok = await run_.apply(ev) and ok
+        obs.append(run_.observe())
+    await run_.teardown()
+    return obs, ok, run_.close_result
+
+
+class FragmentSocket:
+    """Socket stub whose recv() returns the prepared fragments, then b'' (peer gone)."""
+
+    def __init__(self, frags):
+        self.frags = list(frags)
+
+    def recv(self, size):
+        if not self.frags:
+            return b""
+        f = self.frags.pop(0)
+        assert len(f) <= size
+        return f
+
+
+def run_sync_recv(frags, expected_ids):
+    """Call the real SocketSyncRPCClient._recv_response for each expected id, on one reader."""
+    from stepup.core.rpc import SocketSyncRPCClient, _SocketReader
+    client = SocketSyncRPCClient("/nonexistent/c16-socket")
+    sock = FragmentSocket(frags)
+    client._socket = sock
+    client._reader = _SocketReader(sock, client.socket_path)
+    out = []
+    for e in expected_ids:
+        try:
+            body = client._recv_response(e)
+            out.append(("ok", body))
+        except ConnectionResetError:
+            out.append(("reset",))
+            break
+        except RPCError as exc:
+            msg = str(exc)
+            if "exceeds the maximum" in msg:
+                out.append(("badframe",))
+                break
+            m = __import__("re").search(r"response for call id (\d+) while", msg)
+            out.append(("mismatch", int(m.group(1))))
+    return out
